@@ -1,4 +1,5 @@
 import SwcVerif.Props.C07
+import SwcVerif.Props.C07Cat
 #print axioms C07.rootPath_spec
 #print axioms C07.redirect_pids
 #print axioms C07.redirect_edges
@@ -8,3 +9,6 @@ import SwcVerif.Props.C07
 #print axioms C07.translate_coincides
 #print axioms C07.cat_separate
 #print axioms C07.cat_merged
+#print axioms C07.second_wfr
+#print axioms C07.cat_separate_wfr
+#print axioms C07.cat_separate_sorted
